@@ -239,12 +239,16 @@ impl Step {
         }
     }
     pub fn destroy(self) -> EcsStepDestroy {
-        match self {
+        let r = match self {
             Step::Continue => EcsStepDestroy::Continue,
             Step::Break => EcsStepDestroy::Break,
             Step::ContinueDestroy => EcsStepDestroy::ContinueDestroy,
             Step::BreakDestroy => EcsStepDestroy::BreakDestroy,
+        };
+        if r.is_destroy() != matches!(self, Step::ContinueDestroy | Step::BreakDestroy) {
+            crate::rt::violate("C07", "is-destroy-disagrees", format!("EcsStepDestroy::is_destroy() is {} for {:?}", r.is_destroy(), self));
         }
+        r
     }
 }
 
@@ -266,6 +270,10 @@ crate::sx_enum! {
         IterDestroy,
         Find,
         FindBorrow,
+        // call forms of ecs_iter_destroy! whose closure returns `()` / `EcsStep` (chosen by the
+        // executor from the plan; the logical macro stays IterDestroy)
+        IterDestroyUnit,
+        IterDestroyStep,
     }
 }
 
